@@ -116,6 +116,25 @@ fn collision_kinds() -> Vec<Kind> {
             },
         },
         Kind {
+            name: "do-rebind-from-itself",
+            slots: vec![SlotKind::Expr],
+            is_expr: true,
+            class: "collision",
+            build: |mut v| T::Do(vec![T::Assign("c".into(), Box::new(T::List(vec![T::id("c"), v.remove(0)])))], Box::new(T::id("c"))),
+        },
+        Kind {
+            name: "inner-lambda-do-rebind",
+            slots: vec![SlotKind::Expr],
+            is_expr: true,
+            class: "collision",
+            build: |mut v| {
+                T::Call(
+                    Box::new(T::Lam(vec![], Box::new(T::Do(vec![T::Assign("d".into(), Box::new(T::List(vec![T::id("d"), v.remove(0)])))], Box::new(T::id("d")))))),
+                    vec![],
+                )
+            },
+        },
+        Kind {
             name: "do-shadow-then-lambda",
             slots: vec![SlotKind::Expr],
             is_expr: true,
